@@ -4,7 +4,7 @@ text (tools/mk.py). Serves C01, C02, C03, C04 (per-property generator mix and or
 import random, copy, re
 from vlib import hx
 import gens, cfgcodec, mk
-from dom_expand import B, field, outcome, line_of
+from dom_expand import B, field, outcome, outcome_cached, line_of
 
 MODE = 'expandg'
 
@@ -89,6 +89,11 @@ def cases(tier, seed, prop):
         n = 3000 if tier == 'quick' else 40000
         for _ in range(n):
             out.append({'seq': mk.gen_seq(rnd, opt, [rnd.randint(1, 10)], 3), 'c': rnd.choice(C01_CFGS), 'g': 'random'})
+        # user snippets whose definitions nest: the alias stands for its definition's tree, children go into its deepest last element -
+        # on every use, also repeated ones and later ones in the same process
+        oa = dict(opt, names=list(mk.ALIAS_SNIPPETS) * 2 + ['p', 'b', 'ul', 'li', 'span', 'div'], p_noname=.1, p_void_child=0, p_rep=.3)
+        for _ in range(n // 6):
+            out.append({'seq': mk.gen_seq(rnd, oa, [rnd.randint(2, 8)], 2), 'c': dict(rnd.choice(C01_CFGS[:4]), snippets=dict(mk.ALIAS_SNIPPETS)), 'alias': 1, 'g': 'alias'})
     elif prop == 'C02':
         # exhaustive numbering forms on three carriers
         for N in range(1, 6 if tier == 'quick' else 13):
@@ -114,13 +119,21 @@ def cases(tier, seed, prop):
         n = 3000 if tier == 'quick' else 40000
         for _ in range(n):
             out.append({'seq': mk.gen_seq(rnd, opt, [rnd.randint(1, 8)], 3), 'c': rnd.choice(C02_CFGS), 'g': 'random'})
+        # repeated user snippets whose definitions nest: N copies of the alias are N copies of its definition, each with its own descendants
+        oa = dict(opt, names=list(mk.ALIAS_SNIPPETS) * 2 + ['p', 'b', 'ul', 'li', 'span'], p_noname=0, p_rep=.6, p_attr=.15)
+        for _ in range(n // 6):
+            out.append({'seq': mk.gen_seq(rnd, oa, [rnd.randint(2, 7)], 2), 'c': dict(rnd.choice([{}, {'options': {'output.format': False}}]), snippets=dict(mk.ALIAS_SNIPPETS)), 'alias': 1, 'g': 'alias'})
     elif prop == 'C03':
         n = 4000 if tier == 'quick' else 50000
         for _ in range(n):
             c = rnd.choice(C03_CFGS)
             # a user snippet with several top-level elements: what is written on the alias belongs to each of them
             o2 = dict(opt, names=opt['names'] + ['pair', 'trio', 'pair', 'trio']) if 'snippets' in c else opt
-            out.append({'seq': mk.gen_seq(rnd, o2, [rnd.randint(1, 4)], 1), 'c': c, 'g': 'random', 'sep': rnd.choice([' ', ' ', ' ', ' ', ' ', ' ', '\t', '  ', '\n', ' \t'])})
+            case = {'seq': mk.gen_seq(rnd, o2, [rnd.randint(1, 4)], 1), 'c': c, 'g': 'random', 'sep': rnd.choice([' ', ' ', ' ', ' ', ' ', ' ', '\t', '  ', '\n', ' \t'])}
+            # the elements stand inside a text node with a tabstop (the stock comment snippets, or text written in place): they are
+            # elements like any other
+            if rnd.random() < .12: case['pre'] = rnd.choice(['c>', 'cc:ie>', '{x ${0} y}>', '{${0}}>', 'c>c>']); case['g'] = 'under-text'
+            out.append(case)
     elif prop == 'C04':
         n = 3000 if tier == 'quick' else 40000
         # exhaustive short payloads over the punctuation alphabet (well-formed ones only) at two positions
@@ -180,6 +193,18 @@ def cases(tier, seed, prop):
             seq = mk.gen_seq(rnd, o13, [rnd.randint(1, 7)], 2)
             tidy_C13(seq)
             out.append({'seq': seq, 'c': c, 'g': 'random'})
+        # comments switched on, explicit fields inside id / class values (the comment repeats those values): positions, and no tabstop number
+        # shared by two different values
+        o13c = dict(o13, p_attr=.7, p_text=.3, attr_pool=[('attr', 'id', '${1:intro}', 'raw'), ('attr', 'class', 'k${2:x}', 'raw'), ('attr', 'id', 'a${1}b${2:c}', 'dq'), ('attr', 'class', '${3}', 'dq'),
+                                                         ('attr', 'id', 'main', 'raw'), ('attr', 'title', '', 'dq'), ('attr', 'href', '${1}', 'dq'), ('attr', 'class', 'a b', 'dq')], p_id=.2, p_class=.2)
+        for _ in range(n // 5):
+            o = {'comment.enabled': True}
+            if rnd.random() < .3: o['comment.after'] = rnd.choice(['\n<!-- /[#ID][.CLASS] -->', ' <!-- [#ID] -->', '\n<!-- end [.CLASS] [#ID] -->'])
+            if rnd.random() < .3: o['comment.before'] = rnd.choice(['<!-- [#ID] -->\n', '<!-- [.CLASS] -->'])
+            if rnd.random() < .3: o['output.format'] = False
+            seq = mk.gen_seq(rnd, o13c, [rnd.randint(1, 6)], 1)
+            tidy_C13(seq)
+            out.append({'seq': seq, 'c': {'options': o}, 'g': 'comment-fields'})
         # stylesheet syntaxes: snippets whose bodies span lines, numeric values, fields; positions only
         for _ in range(n // 6):
             c = {'type': 'stylesheet', 'syntax': rnd.choice(['css', 'scss', 'sass', 'less', 'stylus'])}
@@ -201,8 +226,8 @@ def cases(tier, seed, prop):
         names = ['div', 'p', 'span', 'ul', 'li', 'em', 'b', 'hr', 'br', 'strong', 'section', 'x', 'table', 'tr', 'td', 'article', 'body', 'i', 'h1', 'nav']
         if prop == 'C15': names = names + ['samp', 'kbd', 'var', 'code', 'q', 's', 'tt', 'sub', 'sup', 'cite', 'dfn', 'u', 'small', 'big', 'del', 'ins', 'strike']
         o12 = dict(base_opt('C04'), names=names, p_attr=.3, p_text=.35, p_noname=.1, p_void_child=.25,
-                   attr_pool=[('attr', 'title', 'v', 'raw'), ('attr', 'data-x', 'a b', 'dq'), ('attr', 'lang', None, None), ('attr', 'rel', 'e', 'expr')] if prop == 'C12' else [('attr', 'title', 'v', 'raw'), ('attr', 'data-x', 'a b', 'dq'), ('attr', 'd', 'M0', 'raw'), ('attr', 'as', 'font', 'raw'), ('attr', 'a', '1', 'raw'), ('attr', 's', 'z', 'dq'), ('attr', 'rel', 'e', 'expr'), ('attr', 'on', 'f(x)', 'expr'), ('bool', 'hidden'), ('bool', 'foo'), ('bool', 'disabled')],
-                   text_pool=['txt', 'a b', 'l1\nl2', 'one\ntwo\nthree', 'x', ' sp ', 'first\rsecond', 'p\r\nq'] if prop == 'C12' else ['txt', 'a b', 'l1\nl2', 'one\ntwo\nthree', 'x', 'first\rsecond', 'a\x0bb', 'p\r\nq'])
+                   attr_pool=[('attr', 'title', 'v', 'raw'), ('attr', 'data-x', 'a b', 'dq'), ('attr', 'lang', None, None), ('attr', 'rel', 'e', 'expr')] if prop == 'C12' else [('attr', 'title', 'v', 'raw'), ('attr', 'data-x', 'a b', 'dq'), ('attr', 'd', 'M0', 'raw'), ('attr', 'as', 'font', 'raw'), ('attr', 'a', '1', 'raw'), ('attr', 's', 'z', 'dq'), ('attr', 'rel', 'e', 'expr'), ('attr', 'on', 'f(x)', 'expr'), ('bool', 'hidden'), ('bool', 'foo'), ('bool', 'disabled'), ('implied', 'dir', None), ('implied', 'lang', 'en'), ('implied', 'dir', None)],
+                   text_pool=['txt', 'a b', 'l1\nl2', 'one\ntwo\nthree', 'x', ' sp ', 'first\rsecond', 'p\r\nq'] if prop == 'C12' else ['txt', 'a b', 'l1\nl2', 'one\ntwo\nthree', 'x', 'first\rsecond', 'a\x0bb', 'p\r\nq', 'Item\n$ of 3', 'n\n$$\n$ x', '$\nb'])
         for _ in range(n):
             seq = mk.gen_seq(rnd, o12, [rnd.randint(1, 8)], 2)
             tidy_C13(seq)
@@ -222,7 +247,7 @@ def cases(tier, seed, prop):
     for c in out:
         if 'seq' in c:
             mk.SEP[:] = [c['sep']] if 'sep' in c else []
-            c['s'] = mk.print_seq(c['seq'])
+            c['s'] = c.get('pre', '') + mk.print_seq(c['seq'])
     mk.SEP[:] = []
     return out
 
@@ -250,6 +275,7 @@ def inline_elements(cfg):
 def oracle_C01(case, o):
     if o[0] != 'ok': return ['no-output| expand(%r) -> %s %s' % (case['s'], o[0], o[1])]
     forest = mk.unroll(mk.flat(case['seq']))
+    if case.get('alias'): forest = mk.apply_alias(forest)
     ctx = (case['c'].get('context') or {}).get('name')
     mk.implicit_names(forest, ctx, inline_doc(case['c']))
     want = mk.tag_sequence(forest)
@@ -287,6 +313,7 @@ def oracle_C02(case, o):
     if o[0] != 'ok': return ['no-output| expand(%r) -> %s %s' % (case['s'], o[0], o[1])]
     mr = case['c'].get('maxRepeat')
     forest = mk.unroll(mk.flat(case['seq']), None, [mr] if mr else None)
+    if case.get('alias'): forest = mk.apply_alias(forest)
     mk.implicit_names(forest, None, inline_doc(case['c']))
     want = doc_order(forest, [])
     got = []
@@ -653,6 +680,25 @@ def oracle_C13(case, o, calls, escaped=False):
         ecol = off - (last + len(nl)) if last >= 0 else off
         if (line, col) != (eline, ecol):
             v.append('line-column| %s callback for %r at offset %d: reported line %r column %r, it ends up at line %d column %d' % (kind, piece, off, line, col, eline, ecol)); break
+    if case.get('g') == 'comment-fields':
+        # comments repeat id / class values: every value (attribute value, text between tags, comment) has tabstop numbers of its own
+        places = []
+        for piece in re.split(r'(<!--.*?-->)', final, flags=re.S):
+            if piece.startswith('<!--'): places.append(piece); continue
+            pos = 0
+            for m in mk.TAG_RE.finditer(piece):
+                if piece[pos:m.start()].strip(): places.append(piece[pos:m.start()])
+                pos = m.end()
+                for a in mk.ATTR_RE.finditer(m.group(3)):
+                    if a.group(2): places.append(a.group(2))
+            if piece[pos:].strip(): places.append(piece[pos:])
+        owner = {}
+        for k, pl in enumerate(places):
+            for i in IDX_RE.findall(pl):
+                if owner.setdefault(i, k) != k:
+                    v.append('collision| expand(%r, %r): tabstop %s is used by two different values, %r and %r, in %r' % (case['s'], case['c'], i, places[owner[i]], pl, final)); break
+            if v: break
+        return v
     if 'seq' in case and not escaped:
         forest = mk.unroll(mk.flat(case['seq']))
         want = expected_fields(forest, False, [], [1])
@@ -874,6 +920,7 @@ def lines_of(forest, sy, depth, acc):
         for m in el['mentions']:
             if m[0] == 'attr' and m[1] not in [a[0] for a in attrs]: attrs.append((m[1], m[2], m[3]))
             elif m[0] == 'bool' and m[1] not in [a[0] for a in attrs]: attrs.append((m[1], None, 'bool'))
+            elif m[0] == 'implied' and m[2] is not None and m[1] not in [a[0] for a in attrs]: attrs.append((m[1], m[2], 'raw'))      # an implied attribute without value is dropped
         name = el['name']
         if not name:      # text-only node: its text on a line of its own
             acc.append((depth, ('| ' if sy in ('pug', 'slim') else '') + el['text'])); continue
@@ -937,12 +984,19 @@ def run(case, prop):
         return line_of(o), viol[:4], tags
     o = outcome(case['s'], mkcfg(case['c']))
     viol = ORACLES[prop](case, o) if prop in ORACLES else []
+    if prop in ORACLES and not case.get('nomodel'):
+        # the same call with a `cache` that earlier calls under the same configuration have used: what the statement says of a
+        # result it says of this one too
+        o2 = outcome_cached(case['s'], mkcfg(case['c']))
+        if o2 != o: viol = viol + ['(with a cache shared by earlier calls) ' + v for v in ORACLES[prop](case, o2)]
     tags = {'gen:' + case['g']: 1, 'outcome:' + o[0]: 1, 'syntax:' + case['c'].get('syntax', '-'): 1}
     return line_of(o), viol, tags
 
 
 def compare(case, line, ml):
     if case.get('nomodel'): return None
+    o = case['c'].get('options') or {}
+    if o.get('comment.enabled') or o.get('bem.enabled'): return None        # add-ons not modelled: judged by the oracle on the implementation
     return line == ml
 
 
